@@ -382,6 +382,8 @@ pub struct C04 {
     attack_conn: Option<u64>,
     victim_max_streams_bidi: u64,
     attack_became_benign: bool,
+    /// bidirectional streams the attacker's honest application has opened
+    attacker_opened_bidi: u64,
     errors: Vec<String>,
 }
 
@@ -410,6 +412,7 @@ impl C04 {
             attack_conn: None,
             victim_max_streams_bidi: 0,
             attack_became_benign: false,
+            attacker_opened_bidi: 0,
             errors: Vec::new(),
         }
     }
@@ -450,6 +453,11 @@ impl Monitor for C04 {
     }
 
     fn on_app(&mut self, _cx: &mut Ctx, ep: EpId, _t: u64, op: &AppOp) {
+        if let AppOp::Opened { stream } = op {
+            if ep == self.attacker && stream & 2 == 0 {
+                self.attacker_opened_bidi += 1;
+            }
+        }
         // consumption as seen at the application boundary
         let (flow, n, stop) = match op {
             AppOp::RecvChunk { flow, data, .. } => (*flow, data.len() as u64, false),
@@ -507,7 +515,13 @@ impl Monitor for C04 {
                     // ever put on the wire?
                     if self.attack == Some(Attack::StreamIdBeyondMaxStreams) {
                         let cfg_lim = self.cfg[self.victim].max_open_remote_bidi;
-                        let lim = cfg_lim.max(self.victim_max_streams_bidi);
+                        // The victim may already have decided to allow one more stream for every
+                        // stream of the attacker's honest application that has ended, without
+                        // having put the new MAX_STREAMS on the wire yet, and s2n-quic polices
+                        // against that internal value. Whether the limit "sent" or the limit
+                        // "decided" counts in that window is left open here: ids within it are
+                        // neither required to be rejected nor to be accepted.
+                        let lim = cfg_lim.max(self.victim_max_streams_bidi) + self.attacker_opened_bidi;
                         for f in &p.frames {
                             if let Frame::Stream { id, .. } = f {
                                 if (id >> 2) < lim {
